@@ -3,11 +3,17 @@
 PLAN = {
     "C10": [{"world": "store-trie", "share": 1,
              "probes": ["delete-absent-only", "trie-emptied", "died-in-commit", "historical-root-read"]}],
+    "C11": [{"world": "store-proof", "share": 1,
+             "probes": ["inclusion-proof", "absence-empty-subtree", "absence-foreign-leaf", "historical-root-query", "verifier-panic-on-malformed"]}],
+    "C12": [{"world": "store-snap", "share": 1,
+             "probes": ["handle-rollback", "session-abandoned", "nested-rollback"]}],
 }
 
 LEVEL = {}
 
 RULES = {
+    "C11": "one case = a seeded history of account puts / contract storage sessions / commits on the real StateDB, interleaved with proof queries (account, contract account, contract variable; present, absent-empty-subtree, absent-foreign-leaf; plain and compressed; current and historical roots) whose answer passes through a corrupting channel (10 mutation kinds incl. transplant to another key/root/encoding and relabelling inclusion as absence); distinct = distinct committed roots; non-trivial = at least one corrupted proof was judged",
+    "C12": "one case = a seeded history of account puts, contract sessions (open, set/delete, nested handle savepoints, stage or abandon), block-level snapshot / rollback to any earlier snapshot, commit (Update+Commit, new StateDB) and reopen; every read is compared with a model that keeps an explicit snapshot stack, every committed root with a fresh state built from the surviving writes; distinct = distinct committed roots; non-trivial = at least one rollback or restart",
     "C10": "one case = one seeded history of sorted update/delete batches (one Update+Commit per batch) over a key universe built to collide on long prefixes, "
            "with reopen / historical-root / crash-in-commit steps; distinct = distinct (model size, committed root) digests; non-trivial = the run contained at least one restart or crash fault",
 }
@@ -28,6 +34,12 @@ NA = {
 }
 
 MAN = {
+    "C11": {"text": "seeded search over state histories and proof queries served by the real StateDB to a light client through a corrupting/transplanting channel; honest proofs must be accepted by the repo verifier and by an independent re-implementation, and no corrupted proof may be accepted for a statement that is false in the model. Sampling, not proof; found and fixed one genuine verifier defect.",
+            "ref": "5 C11", "note": "trusted: the state model, the independent verifier (60 lines, written from the construction), sha256; a verifier panic on a malformed proof counts as rejection",
+            "technique": "deterministic simulation: seeded histories + message-corruption fault injection between full node and light client, independent verifier as oracle"},
+    "C12": {"text": "seeded search over histories of puts, contract sessions, nested snapshots/rollbacks, commits and restarts on the real BlockState/StateDB/ContractState over a simulated disk, compared read-by-read with a model holding an explicit snapshot stack and root-by-root with a fresh state built from surviving writes only.",
+            "ref": "5 C12", "note": "trusted: the model; API usage restricted to the executor's discipline (one Update per block state, sessions staged or rolled back to their savepoint)",
+            "technique": "deterministic simulation: seeded operation histories with rollback/restart against a reference model with an explicit snapshot stack"},
     "C10": {"text": "seeded search over histories of update/delete batches, restarts, historical-root reads and crashes inside the commit on the real pkg/trie over a simulated disk; every step is compared with a map model and the root with a freshly built trie (history independence). Sampling, not proof; found and fixed one genuine defect.",
             "ref": "5 C10", "note": "trusted: the map model, simdisk's write-unit semantics (tx atomic, bulk chunked), sha256",
             "technique": "deterministic simulation: seeded operation histories + crash/restart fault injection against a reference map model, ddmin-minimised replay"},
